@@ -237,6 +237,10 @@ def truth(sc):
                     ka, kb = keep[0], keep[-1]
                     ha = max(fv, min(j for j in range(len(hs)) if hs[j] >= ts[ka])) if meter else fv
                     hb = min(lv, max(j for j in range(len(hs)) if hs[j] <= ts[kb] + ahead)) if meter else lv
+                    # (a 25-hour last meter period reaches one hour into the next day: that day gets a row, without usage)
+                    while meter and kb + 1 < n and hs[hb] >= ts[kb + 1]:
+                        kb += 1
+                        us[kb] = None
                 else:
                     ka, kb = 0, -1
             j = 0
